@@ -141,6 +141,10 @@ pub fn qdev(cap: usize) -> IfaceSpec {
             d("CUST", &[], R::Unit).failing(Fail::Custom(77, "custom seventy-seven")),
             d("CUSTB?", &[], R::U8).failing(Fail::Custom(-299, "another custom")),
             d("HW", &[], R::Unit).failing(Fail::Builtin(2)),
+            d("CUSTZ", &[], R::Unit).failing(Fail::Custom(0, "zero")),
+            d("CUSTP", &[], R::Unit).failing(Fail::Custom(32767, "largest")),
+            d("CUSTN", &[], R::Unit).failing(Fail::Custom(-32768, "smallest")),
+            d("CUSTO", &[], R::Unit).failing(Fail::Custom(-350, "custom, not the overflow marker")),
         ],
         std_cmds: false,
         err_cmds: true,
@@ -149,7 +153,9 @@ pub fn qdev(cap: usize) -> IfaceSpec {
     }
 }
 
-const POOL: [&str; 44] = [
+const POOL: [&str; 53] = [
+    "VOLTAGE", "SYSTEM", "TRIGGER", "TEST", "SOURCE",
+    "WAVeform", "ZERO", "JKl", "KELVin",
     "CONFiguration", "MULTiplyFloat", "CALibrationData1", "ABCDEFGHIJKLMNo",
     "A", "B", "C", "D", "AB", "BA", "VOLTage", "CURRent", "TeST", "MEAS1", "X_Y", "RANGe", "DC", "AC", "FREQuency",
     "SYSTem", "ERRor", "NEXT", "COUNt", "VERSion", "OUTPut", "STATe", "LEVel", "TRIGger", "SOURce", "CH1", "CH2", "aBc",
@@ -209,6 +215,8 @@ fn rand_fail(rng: &mut Rng) -> Fail {
             Fail::Custom(32767, "max"),
             Fail::Custom(-113, "custom with the number of undefined header"),
             Fail::Custom(0, "zero is not an error"),
+            Fail::Custom(-32768, "minimum"),
+            Fail::Custom(-350, "custom, not the overflow marker"),
         ])
     }
 }
@@ -251,7 +259,7 @@ pub fn random_iface(name: &str, rng: &mut Rng, path_style: bool) -> IfaceSpec {
             rng.pick(&COMMON).to_string()
         }
         else {
-            let depth = if path_style { rng.range(1, 4) } else { *rng.pick(&[1, 1, 2, 2, 2, 3, 3, 4]) };
+            let depth = if path_style { rng.range(1, 4) } else { *rng.pick(&[1, 1, 2, 2, 2, 3, 3, 4, 4, 5, 6]) };
             let mut parts = Vec::new();
             let mut any_required = false;
             for _ in 0..depth {
@@ -351,6 +359,10 @@ pub fn emit_module(s: &IfaceSpec) -> String {
     }
     o.push_str("impl Dev {\n");
     for (i, dcl) in s.decls.iter().enumerate() {
+        // ordinary items between the handlers (an impl block is not only SCPI handlers)
+        if i % 3 == 1 || (i == 0 && s.decls.len() % 2 == 0) {
+            o.push_str(&format!("    pub const AUX_{}: usize = {};\n    pub fn helper_{}(&self) -> usize {{ Self::AUX_{} }}\n", i, i, i, i));
+        }
         let params: Vec<String> = dcl.params.iter().enumerate().map(|(k, t)| format!("p{}: {}", k, t.rust())).collect();
         let refs: Vec<String> = (0..dcl.params.len()).map(|k| format!("&p{}", k)).collect();
         o.push_str(&format!("    #[scpi(cmd = {:?})]\n", dcl.cmd));
